@@ -16,7 +16,9 @@ func init() {
 		func(e *Env) { streamFraming(e, "C11.framing", "pkg/protocol/http1/req") },
 		c11Max, c11Host, c11Continue, c02Retry, c14Drain, c14EOF,
 		// the request goes out and the response comes in through the buffered connection
-		c13Alias, c13Window, c13Remainder,
+		c13Alias, c13Window, c13Remainder, c13WriterReset,
+		// the exchange function arms the deadlines of every write and read of the request
+		c10Deadline,
 		func(e *Env) {
 			dispatchAgreement(e, "C11.dispatch", func(fi *core.FuncInfo) bool { return fi.Pkg.PkgPath == pkgResp || fi.Pkg.PkgPath == pkgProto })
 		})
